@@ -30,6 +30,10 @@ CLAIMED = {
    "Structural conditions decided on every run, each a path or pairing rule over the SSA/CFG: after an upload is created no path reaches a return without the deferred abort being registered, the abort fires iff the upload variable is non-nil and the variable is cleared only on Commit's success edge, Commit is reachable only when NextPart returned exactly io.EOF; the file writer is paired with a deferred close that discards on error and propagates Close's error; no error-returning call on the upload path drops its error except reviewed clean-up calls, and non-nil errors of progress calls return; db.Upload runs SQL only through its own transaction; NewUpload reads and inserts the ID in one committed transaction and hands the records a separate later transaction; the client's and server's field names agree; every CloseWithError discards.",
    "Does not decide database isolation, uniqueness under truly concurrent NewUpload beyond the single-transaction shape, mime/multipart's behaviour on truncated bodies, or fs implementations outside the repository. Trusted: go/types, go/ssa, database/sql and mime/multipart documentation.",
    "typestate/pairing rules over SSA CFG paths + error-use dataflow + who-may-call rules"),
+ "C18": ("DESIGN.md §4 C18",
+   "Structural conditions decided on every run: every range over a map in the series builder, CSV writer and command is classified by the effects of its body (per-key writes, set insertion, collect-then-sort incl. map-of-slices, constant early exit) and anything order-sensitive is reported with the reason; every slice handed to median/percentile is sorted on all paths and the pre-exposure sort of cell values cannot be skipped by a stale flag; the only randomness is a source seeded from the two cells' value hashes; the compact date form's slices partition exactly the bytes its pattern admits and every successful normalisation is t.UTC().Format(numeric-offset layout); the duplicate policy's decision table (extracted from the SSA of one iteration) equals DESIGN Appendix A6; combined samples are fresh slices.",
+   "Does not decide that samples contain exactly the matching measurements (projection semantics, C08), the bootstrap's numerical bounds, or total-order ties between distinct keys with equal string values. Trusted: go/types, go/ssa, the effect table for the standard library in effects.go.",
+   "map-range effect classification over SSA + write summaries (call-graph fixpoint) + typestate (sorted) + decision-table extraction"),
 }
 
 NOT_YET = "check not built yet in this round (planned in DESIGN.md); not claimed until its rules run clean on the unchanged tree"
